@@ -248,10 +248,83 @@ class MultiplySynthAccumulateLoop(SynthAccumulateLoop):
         return cache[key]
 
 
+def partition_ghost(I, k):
+    """Ghost functions of `partition by P` over a list of length k: cnt(j) = number of hits among
+    the first j entries, sigma(u) / tau(u) = index of the u-th hit / miss.  Their defining facts
+    (true of these mathematical functions, Lean: List.countP / filter) are instantiated at the
+    index terms in play."""
+    g = I.ghost.setdefault("partition_ghost", None)
+    if g is not None:
+        return g
+    P = z3.Function("P!part", z3.IntSort(), z3.BoolSort())
+    cnt = z3.Function("cnt!part", z3.IntSort(), z3.IntSort())
+    sigma = z3.Function("sigma!part", z3.IntSort(), z3.IntSort())
+    tau = z3.Function("tau!part", z3.IntSort(), z3.IntSort())
+    q = qm(I)
+    q.links.append(cnt(z3.IntVal(0)) == 0)
+    q.foralls.append((None, lambda j: z3.And(cnt(j + 1) == cnt(j) + z3.If(P(j), 1, 0), cnt(j) >= 0, cnt(j) <= j)))
+    q.foralls.append((k, lambda j: z3.If(P(j), sigma(cnt(j)) == j, tau(j - cnt(j)) == j)))
+    g = I.ghost["partition_ghost"] = {"P": P, "cnt": cnt, "sigma": sigma, "tau": tau}
+    return g
+
+
+class PartitionLoop:
+    """utilities.partition_by_predicate: after j iterations  hits = [entries[sigma(u)] for u < cnt(j)]
+    and  misses = [entries[tau(u)] for u < j - cnt(j)]."""
+    def element(self, I, sl, j):
+        return sl.elem(j)
+
+    def _names(self, st):
+        from .interp import Unsupported
+        ifs = [n for n in st.body if isinstance(n, ast.If)]
+        if len(st.body) != 1 or len(ifs) != 1:
+            raise Unsupported("G-mode: partition loop body is not a single if/else")
+
+        def appended(block):
+            if len(block) == 1 and isinstance(block[0], ast.Expr) and isinstance(block[0].value, ast.Call) \
+                    and isinstance(block[0].value.func, ast.Attribute) and block[0].value.func.attr == "append" \
+                    and isinstance(block[0].value.func.value, ast.Name):
+                return block[0].value.func.value.id
+            raise Unsupported("G-mode: partition loop branch is not a single append")
+        return appended(ifs[0].body), appended(ifs[0].orelse)
+
+    def _lists(self, I, sl, j):
+        g = partition_ghost(I, sl.length)
+        hits = SList(g["cnt"](j), lambda u: sl.elem(g["sigma"](u)), f"hits@{j}")
+        misses = SList(z3.simplify(j - g["cnt"](j)), lambda u: sl.elem(g["tau"](u)), f"misses@{j}")
+        return hits, misses
+
+    def on_entry(self, I, env, sl, st):
+        self.check_at(I, env, sl, st, z3.IntVal(0))
+
+    def assume_at(self, I, env, sl, st, j):
+        h, m = self._names(st)
+        env.vars[h], env.vars[m] = self._lists(I, sl, j)
+
+    def check_at(self, I, env, sl, st, j1):
+        h, m = self._names(st)
+        want = dict(zip((h, m), self._lists(I, sl, j1)))
+        for name in (h, m):
+            got = env.vars.get(name)
+            if isinstance(got, list) and not got:
+                got = SList(z3.IntVal(0), lambda u: None, "[]")
+            if not isinstance(got, SList):
+                from .interp import Unsupported
+                raise Unsupported("G-mode: partition loop accumulators are not lists")
+            I.path.require(got.length == want[name].length, f"loop-invariant:partition/{'hits' if name == h else 'misses'}-length", qfacts=True)
+            u = z3.Int(I.path.fresh_name("u!part"))
+            qm(I).add_index(u, want[name].length)
+            a, b = got.elem(u), want[name].elem(u)
+            same = (a.idx == b.idx) if isinstance(a, gmode.IndexedItem) and isinstance(b, gmode.IndexedItem) else z3.BoolVal(a is b)
+            I.path.require(z3.Implies(z3.And(u >= 0, u < want[name].length), same),
+                           f"loop-invariant:partition/{'hits' if name == h else 'misses'}-elements", qfacts=True)
+
+
 REGISTRY = {
     ("math_functions.multiply", 0): MultiplyLoop(),
     ("Add._compute_numeric_partials", 0): AccumulateLoop(),
     ("Add._compute_synthetic_partials", 0): SynthAccumulateLoop(),
     ("Multiply._compute_numeric_partials", 0): MultiplyAccumulateLoop(),
     ("Multiply._compute_synthetic_partials", 0): MultiplySynthAccumulateLoop(),
+    ("utilities.partition_by_predicate", 0): PartitionLoop(),
 }
